@@ -62,12 +62,14 @@ __CPROVER_ensures((a == INF || b == INF) ==> __CPROVER_return_value == INF)
 __CPROVER_ensures((a != INF && b != INF) ==> __CPROVER_return_value == a + b)
 ;
 W DIST[MAXN]; bool PREDF[MAXN]; size_t PREDE[MAXN];
-/* d_ary_heap_indirect keyed by DIST, as a set */
-bool INH[MAXN]; size_t hn, vp_top;
+/* d_ary_heap_indirect keyed by DIST, as a set.  STALE[v]: v is a member whose key was changed without a following update() -
+   the heap order is then unspecified, so top() / pop() / push() require that no member is stale */
+bool INH[MAXN], STALE[MAXN]; size_t hn, vp_top;
+#define NOSTALE __CPROVER_forall { size_t hs; (hs < MAXN) ==> ((hs < vp_n && INH[hs]) ==> !STALE[hs]) }
 void heap_push(size_t v)
-__CPROVER_requires(v < vp_n && !INH[v])
-__CPROVER_assigns(INH[v], hn)
-__CPROVER_ensures(INH[v] && hn == __CPROVER_old(hn) + 1)
+__CPROVER_requires(v < vp_n && !INH[v] && NOSTALE)
+__CPROVER_assigns(INH[v], STALE[v], hn)
+__CPROVER_ensures(INH[v] && !STALE[v] && hn == __CPROVER_old(hn) + 1)
 ;
 bool heap_empty(void)
 __CPROVER_assigns()
@@ -75,26 +77,27 @@ __CPROVER_ensures(__CPROVER_return_value == (hn == 0))
 __CPROVER_ensures(__CPROVER_return_value ==> __CPROVER_forall { size_t he; (he < MAXN) ==> !INH[he] })
 ;
 size_t heap_top(void)
-__CPROVER_requires(hn > 0)
+__CPROVER_requires(hn > 0 && NOSTALE)
 __CPROVER_assigns(vp_top)
 __CPROVER_ensures(__CPROVER_return_value < vp_n && INH[__CPROVER_return_value] && vp_top == __CPROVER_return_value)
 __CPROVER_ensures(__CPROVER_forall { size_t ht; (ht < MAXN) ==> ((ht < vp_n && INH[ht]) ==> DIST[__CPROVER_return_value] <= DIST[ht]) })
 ;
 void heap_pop(void)
-__CPROVER_requires(hn > 0 && vp_top < vp_n && INH[vp_top])
+__CPROVER_requires(hn > 0 && vp_top < vp_n && INH[vp_top] && NOSTALE)
 __CPROVER_assigns(INH[vp_top], hn)
 __CPROVER_ensures(!INH[vp_top] && hn == __CPROVER_old(hn) - 1)
 ;
 void heap_update(size_t v)
 __CPROVER_requires(v < vp_n && INH[v])        /* only a member's key can be decreased */
-__CPROVER_assigns()
+__CPROVER_assigns(STALE[v])
+__CPROVER_ensures(!STALE[v])
 ;
 bool SETTLED[MAXN]; size_t PU[MAXN]; W PW[MAXN]; W dmax;
 #define VIS(v) ((v) == vp_s || PREDF[v])
 #define ALLV(v, body) __CPROVER_forall { size_t v; (v < MAXN) ==> ((v < vp_n) ==> (body)) }
 """
 
-SETS = ("dmax >= 0 && dmax <= SUMSET * WB"
+SETS = ("dmax >= 0 && dmax <= SUMSET * WB && ALLV(qs, INH[qs] ==> !STALE[qs])"
         " && ALLV(qv, (INH[qv] ==> (VIS(qv) && !SETTLED[qv] && DIST[qv] >= dmax)) && (SETTLED[qv] ==> (VIS(qv) && !INH[qv] && DIST[qv] <= dmax))"
         " && (VIS(qv) ==> ((INH[qv] || SETTLED[qv]) && DIST[qv] >= 0 && DIST[qv] <= SUMSET * WB)))")
 TREE = ("DIST[vp_s] == 0 && !PREDF[vp_s]"
@@ -124,12 +127,16 @@ size_t out_edge(size_t u, size_t j) { return AE[u][j]; }
 W edge_weight(size_t e) { return vp_in_ew[e]; }
 W closed_plus(W a, W b) { if (a == INF) return INF; if (b == INF) return INF; return a + b; }
 W DIST[MAXN]; bool PREDF[MAXN]; size_t PREDE[MAXN];
-bool INH[MAXN]; size_t hn, vp_top;
-void heap_push(size_t v) { INH[v] = 1; hn++; }
+bool INH[MAXN], STALE[MAXN]; size_t hn, vp_top;
+/* executable model of the heap: with a stale member (key changed, no update()) the order is unspecified: top() is ANY member */
+void heap_push(size_t v) { INH[v] = 1; STALE[v] = 0; hn++; }
 bool heap_empty(void) { return hn == 0; }
-size_t heap_top(void) { size_t v; __CPROVER_assume(v < vp_n && INH[v]); for (size_t x = 0; x < MAXN; x++) __CPROVER_assume(!(x < vp_n && INH[x]) || DIST[v] <= DIST[x]); vp_top = v; return v; }
+size_t heap_top(void) { size_t v; bool stale = 0; __CPROVER_assume(v < vp_n && INH[v]);
+  for (size_t x = 0; x < MAXN; x++) if (x < vp_n && INH[x] && STALE[x]) stale = 1;
+  __CPROVER_assert(!stale, "K18d.H: top() on a heap whose order was not restored by update() after a member's key changed (precondition of the heap)");
+  for (size_t x = 0; x < MAXN; x++) __CPROVER_assume(stale || !(x < vp_n && INH[x]) || DIST[v] <= DIST[x]); vp_top = v; return v; }
 void heap_pop(void) { INH[vp_top] = 0; hn--; }
-void heap_update(size_t v) { __CPROVER_assert(v < vp_n && INH[v], "K18d.H: update() on a vertex that is in the heap"); }
+void heap_update(size_t v) { __CPROVER_assert(v < vp_n && INH[v], "K18d.H: update() on a vertex that is in the heap"); STALE[v] = 0; }
 bool SETTLED[MAXN]; size_t PU[MAXN]; W PW[MAXN]; W dmax;
 #define VP_LESS(a, b) ((a) < (b))
 """
@@ -197,9 +204,11 @@ def _unit(maxn, bounded=False):
     log.append(dict(pattern="declarations before the source is initialised", replacement="", fired=1, expected=1, kind="drop",
                     note="typedefs, compare (std::less), the closed_plus object, the index-in-heap map, construction of the (empty) queue"))
     body = body[i:]
+    body = X.drop_local_const(body, log)
     body = X.canon(body, [(r"Vertex (\w+) = queue\.top\(\);", ["u"]), (r"DistanceType (\w+) = boost::get\(dist_map, u\);", ["d_u"]),
+                          (r"auto (\w+) = boost::out_edges\(u, g\);", ["eiRange"]),
                           (r"for \(auto (\w+) = eiRange\.first;", ["ei"]), (r"auto (\w+) = \*ei;", ["e"]), (r"auto (\w+) = boost::target\(e, g\);", ["w"]),
-                          (r"const WeightType (\w+) = combine\(", ["c"]), (r"bool (\w+) = std::get<0>\(boost::get\(pred_map, w\)\);", ["visited_w"])], log)
+                          (r"WeightType (\w+) = combine\(", ["c"]), (r"bool (\w+) = std::get<0>\(boost::get\(pred_map, w\)\);", ["visited_w"])], log)
     body = X.rewrite(body, [
         (r"boost::put\(dist_map, s, DistanceType\(\)\);", "DIST[vp_s] = 0;", 1, "container-api", ""),
         (r"boost::put\(pred_map, s, std::make_tuple\(false, Edge\(\)\)\);", "PREDF[vp_s] = 0;", 1, "container-api", ""),
@@ -214,9 +223,9 @@ def _unit(maxn, bounded=False):
         (r"auto w = boost::target\(e, g\);", "size_t w = out_target(u, ei);", 1, "container-api", ""),
         (r"w = boost::source\(e, g\);", "w = u;", 1, "container-api", "source of an out-edge of u is u"),
         (r"\bs\b", "vp_s", (1, 3), "type-binding", "parameter s"),
-        (r"const WeightType c = combine\(d_u, get\(weight_map, e\)\);", "const W vp_we = edge_weight(e); const W c = closed_plus(d_u, vp_we);", 1, "overload-resolution", "weight map lookup + closed_plus (K12)"),
+        (r"WeightType c = combine\(d_u, get\(weight_map, e\)\);", "const W vp_we = edge_weight(e); const W c = closed_plus(d_u, vp_we);", 1, "overload-resolution", "weight map lookup + closed_plus (K12)"),
         (r"bool visited_w = std::get<0>\(boost::get\(pred_map, w\)\);", "bool visited_w = PREDF[w];", 1, "container-api", ""),
-        (r"boost::put\(dist_map, w, c\);", "DIST[w] = c;", (1, 3), "container-api", ""),
+        (r"boost::put\(dist_map, w, c\);", "DIST[w] = c; STALE[w] = INH[w];", (1, 3), "ghost", "distance write + ghost: a member's key changed"),
         (r"boost::put\(pred_map, w, std::make_tuple\(true, e\)\);", "PREDF[w] = 1; PREDE[w] = e; PU[w] = u; PW[w] = vp_we;", (1, 3), "ghost", "pred entry + ghost: improved from u along an edge of weight vp_we"),
         (r"queue\.push\(w\);", "heap_push(w);", 1, "container-api", ""),
         (r"\bcompare\(", "VP_LESS(", (0, 2), "overload-resolution", "std::less<DistanceType>"),
@@ -225,7 +234,7 @@ def _unit(maxn, bounded=False):
     ], log)
     if bounded:
         return _bounded_unit(body, log, rel)
-    assigns = ("hn, vp_top, vp_lastu, vp_lastj, dmax, __CPROVER_object_whole(DIST), __CPROVER_object_whole(PREDF), __CPROVER_object_whole(PREDE), "
+    assigns = ("hn, vp_top, vp_lastu, vp_lastj, dmax, __CPROVER_object_whole(STALE), __CPROVER_object_whole(DIST), __CPROVER_object_whole(PREDF), __CPROVER_object_whole(PREDE), "
                "__CPROVER_object_whole(INH), __CPROVER_object_whole(SETTLED), __CPROVER_object_whole(PU), __CPROVER_object_whole(PW)")
     inv_main = ("__CPROVER_assigns(%s)\n__CPROVER_loop_invariant(%s && %s && %s)" % (assigns, SETS, TREE, _closure("1")))
     inv_scan = ("__CPROVER_assigns(ei, %s)\n__CPROVER_loop_invariant(ei <= eiRange_second && u < vp_n && SETTLED[u] && DIST[u] == d_u && d_u == dmax && d_u <= (SUMSET - 1) * WB && %s && %s && %s)\n"
@@ -239,7 +248,7 @@ void dijkstra(void)
 __CPROVER_requires(vp_n >= 1 && vp_n <= MAXN && vp_s < vp_n && hn == 0)
 __CPROVER_requires(x0 < vp_n && y0 < vp_n && j0 < d_x0 && w0 > 0 && w0 < WB)
 __CPROVER_requires(ALLV(ra, !PREDF[ra] && !INH[ra] && !SETTLED[ra]))          /* caller: no vertex visited; fresh empty queue */
-__CPROVER_assigns(hn, vp_top, vp_lastu, vp_lastj, dmax, __CPROVER_object_whole(DIST), __CPROVER_object_whole(PREDF), __CPROVER_object_whole(PREDE),
+__CPROVER_assigns(hn, vp_top, vp_lastu, vp_lastj, dmax, __CPROVER_object_whole(STALE), __CPROVER_object_whole(DIST), __CPROVER_object_whole(PREDF), __CPROVER_object_whole(PREDE),
                   __CPROVER_object_whole(INH), __CPROVER_object_whole(SETTLED), __CPROVER_object_whole(PU), __CPROVER_object_whole(PW))
 /* T */
 __CPROVER_ensures(DIST[vp_s] == 0 && !PREDF[vp_s])
@@ -257,7 +266,7 @@ void h_dijkstra(void) {
 """ % body
     return dict(unit="K18d_dijkstra", site="K18d_dijkstra", lang="c", source=rel + " (parmcb::dijkstra)",
                 text=PRE % dict(MAXN=str(maxn)) + "#define SUMSET ((W) (%s))\n" % " + ".join("((%d < vp_n && SETTLED[%d]) ? 1 : 0)" % (i, i) for i in range(maxn)) + _fresh(fn), entry="h_dijkstra", enforce="dijkstra",
-                replace=["out_degree", "out_target", "out_edge", "edge_weight", "closed_plus", "heap_push", "heap_empty", "heap_top", "heap_pop", "heap_update"],
+                replace=[f for f in ("out_degree", "out_target", "out_edge", "edge_weight", "closed_plus", "heap_push", "heap_empty", "heap_top", "heap_pop", "heap_update") if (f + "(") in body],
                 rewrites=log, timeout=2400, split=16, flags=["--object-bits", "12"], unwind=26, loop_contracts=True, mode="proof", fallback=lambda: _unit(3, True),
                 bound="proved(n<=%d): both loops closed by loop contracts with invariants quantified over the vertex range; degrees, parallel edges, self-loops unbounded; integer weights in (0, 10^9); termination of the main loop not proved" % maxn,
                 dropped=["template header; typedefs; construction of the queue and the index-in-heap map"],
